@@ -14,6 +14,13 @@ code -> spec : real listings are cut at byte offsets (all offsets of the small o
                watchdog, interleaved with parses of complete listings; the observations are validated by TLC
                against T4ScanTrace.tla (property predicate + conformance), and the datasets / metadata / times of
                every successfully parsed edition are compared with those of the complete listing.
+               "Whatever was parsed earlier in the same process": besides the shipped and the model listings, the
+               long-lived worker processes parse complete listings WRITTEN FROM THE GRAMMAR for the result layouts that
+               no shipped listing has (gram|<layout>, see gram_bytes): each in turn between the prefixes of every
+               listing and between the model listings, and a prefix of every listing right after each of them; they
+               are cut like the other listings too.  The clauses are the same; a finding that needs such a history is
+               keyed .../after-<layout> and its case carries the history (`after`), found by replaying the first case
+               of the class in fresh processes (minimise_histories).
 """
 import glob
 import hashlib
@@ -894,7 +901,7 @@ def synth_bytes(rel):
 # listings written from the GRAMMAR (grammar.py / transform.py / common.py), for the layouts no shipped listing has:
 # nu and (Z,A) spectra, every order of the nucleus / temperature / composition / concentration / reaction details (a
 # parse action rebuilds a shared Forward from the first one), the other response characteristics, every scoring zone,
-# correspondence table, MED file, best result, non-converged results, kij matrices of other dimensions (parse actions
+# correspondence table, MED file, best result, non-converged results (combined keff, generic response), kij matrices of other dimensions (parse actions
 # size shared Forwards), lists of fissile volumes, parna likelihood, keff warnings, scores by perturbation index,
 # reaction-rate-ratio sensitivities, normalised IFP criticality editions with other table formats, perturbation order,
 # contributing particles, packet-length warning, the other introduction lines, uncertainty spectra per time step.
@@ -1165,17 +1172,19 @@ _INTRO = [' Mean weight leakage = 7.130508e+02\t sigma = 1.003534e+01\t sigma% =
 _PACKET = ' * packet length is 20 (check documentation for conventions about discard and batches)\n\n'
 
 
-def _unconverged(e):
+def _unconverged(e, generic=False):
     """results that are not converged after the first batches of a criticality job"""
     head = '\n\tENERGY INTEGRATED RESULTS\n\n'
+    if generic:
+        return (_resp('TOTAL FISSION RATE', name=None, split=None, particle=None) + head + ' NOT YET CONVERGED\n\n\n'
+                + _resp('FLUX', name='converged') + _desc() + _spectrum(e))
     return (_resp('KEFFS', name=None, split=None, particle=None) + head + 'number of batches used:\t%d\n\n' % (10 * e)
             + ' KSTEP  %s\t%s\n KCOLL  %s\t%s\n KTRACK %s\t%s\n\n' % tuple(_f(x) for x in (.99, .14, .995, .12, .996, .11))
             + '  \t  estimators  \t\t\t  correlations   \t  combined values  \t  combined sigma%\n'
               '  \t  KSTEP <-> KCOLL  \t    \t  8.220342e-01  \t  9.957839e-01  \t  1.250667e-01\n'
               '  \t  KSTEP <-> KTRACK  \t    \t  Not converged  \t  Not converged  \t  Not converged\n'
               '  \t  KCOLL <-> KTRACK  \t    \t  8.338559e-01  \t  9.959687e-01  \t  1.149536e-01\n\n'
-              '  \t  full combined estimator  Not converged (invalid keff domain)\n\n\n\n'
-            + _resp('TOTAL FISSION RATE', name=None, split=None, particle=None) + head + ' NOT YET CONVERGED\n\n\n')
+              '  \t  full combined estimator  Not converged (invalid keff domain)\n\n\n\n')
 
 
 LAYOUTS = {
@@ -1183,7 +1192,8 @@ LAYOUTS = {
     'za': lambda e: _resp('REACTION', name='za_fission', split=None) + _desc() + _za_spectrum(e),
     'compos': _compos,
     'zones': _zones,
-    'unconverged': _unconverged,
+    'unconverged-keff': _unconverged,
+    'unconverged-generic': lambda e: _unconverged(e, True),
     'runinfo': _runinfo,
     'adjoint': _adjoint,
     'kij3': _kij,
@@ -1399,31 +1409,37 @@ def _replay(case):
     return fnd, detail
 
 
-def _replay_fresh(case):
-    """_replay in a process that has parsed nothing yet -> finding | None"""
-    with multiprocessing.get_context('fork').Pool(1, initializer=_init_worker, maxtasksperchild=1) as pool:
-        return pool.apply(_replay, (case,))[0]
+def _replay_shows(task):
+    """(raw key, case) -> the finding of that class shows when the case is replayed in this (fresh) process"""
+    key, case = task
+    try:
+        fnd = _replay(case)[0]
+    except Exception:  # pylint: disable=broad-except
+        return False
+    return fnd is not None and (fnd[0] == key or key.startswith('C11/history/'))
 
 
-def minimise_history(key, case):
-    """The smallest history of grammar-written listings with which a fresh process reproduces finding `key` on `case`
-    -> (suffix of the key, case): none ('' - the finding does not need them), one of them, else all of them."""
-    after = list(case.get('after') or [])
-    if not after:
-        return '', case
-
-    def shows(hist):
-        trial = dict(case, after=hist)
-        fnd = _replay_fresh(trial)
-        return trial if fnd is not None and fnd[0] == key else None
-    trial = shows([])
-    if trial:
-        return '', trial
-    for name in reversed(after):
-        trial = shows([name])
-        if trial:
-            return '/after-' + name[len(GRAM):], trial
-    return '/after-grammar-listings', case
+def minimise_histories(firsts, limit=12):
+    """{reported key: (raw key, case)} -> {reported key: (suffix, case)}: the smallest history of grammar-written listings
+    with which a FRESH process reproduces the finding: none (suffix ''), one of them ('/after-<layout>'), all those the
+    observing process had parsed ('/after-grammar-listings').  A finding that no such replay reproduces keeps its key
+    and its case (it needs a history this module does not record, e.g. a second scan of the same file)."""
+    tasks, n_keys = [], 0
+    for full_key, (key, case) in firsts.items():
+        after = list(case.get('after') or [])
+        if after and n_keys < limit:
+            n_keys += 1
+            hists = [[]] + [[name] for name in reversed(after)] + ([after] if len(after) > 1 else [])
+            tasks += [(full_key, key, dict(case, after=h)) for h in hists]
+    out = {}
+    if tasks:
+        with multiprocessing.get_context('fork').Pool(NPROC, initializer=_init_worker, maxtasksperchild=1) as pool:
+            shown = pool.map(_replay_shows, [(key, trial) for _, key, trial in tasks], chunksize=1)
+        for (full_key, _, trial), yes in zip(tasks, shown):         # (in the order none, one, all)
+            if yes and full_key not in out:
+                h = trial['after']
+                out[full_key] = ('' if not h else '/after-' + h[0][len(GRAM):] if len(h) == 1 else '/after-grammar-listings', trial)
+    return out
 
 
 # ----------------------------------------------------------------------------------------------
@@ -1670,10 +1686,10 @@ def run_c11(ctx):
                 pf['groups'][k]['count'] += g['count']
             else:
                 pf['groups'][k] = g
-        for h in r['history']:
-            ctx.violation('C11/history/complete-listing-result-changed',
-                          'complete listing %s parsed after truncated ones gives %s' % (r['rel'], h),
-                          dict(source='file', file=r['rel'], offset=h['after'], after=h.get('primed', [])), module='conf_t4scan')
+        for h in r['history']:          # (replayed as: the complete listing, the grammar-written ones, the complete listing)
+            pending.append(('C11/history/complete-listing-result-changed', '',
+                            'complete listing %s parsed after truncated ones gives %s' % (r['rel'], {k: h[k] for k in ('after', 'got', 'diff', 'exc')}),
+                            dict(source='file', file=r['rel'], offset=sizes[r['rel']], after=h.get('primed', []))))
         for key, what, case in r.get('primed', []):
             pending.append((key, '/gram-' + case['file'][len(GRAM):], what, case))
     rejected = [rel for rel in gram_names() if (per_file.get(rel) or {}).get('ref_obs') is not None
@@ -1725,6 +1741,8 @@ def run_c11(ctx):
         raise tlc.MachineryError('T4Scan.tla itself breaks PrefixAgrees on prefixes of real listings: %s' % verdict['modelbad'][:5])
     nofinal = set(verdict['nofinal'])
     for f in sorted(nofinal):
+        if (per_file[data[f - 1]['name']]['ref_obs'] or {}).get('outcome') == 'Other':
+            continue                    # (a finding, reported below: there is no scan to reproduce)
         ctx.drift('T4Scan.tla does not reproduce the scan of the complete listing %s; its prefixes are judged on the '
                   'results only' % data[f - 1]['name'])
     bad = set((f, c) for f, c in verdict['bad'])
@@ -1755,16 +1773,19 @@ def run_c11(ctx):
     # when the finding class shows on those layouts alone: it then names what is needed to expose it
     # the same for the history (grammar-written listings parsed complete earlier in the process): the first case of every
     # finding class is replayed in fresh processes without them, then after each one of them
+    pending.sort(key=lambda p: '[complete ' in p[2])        # (stable) the case kept for a class: a real prefix if there is one
     plain_keys = set(k for k, suffix, _, _ in pending if not suffix)
-    minimal = {}
+    firsts = {}
+    for key, suffix, what, case in pending:
+        firsts.setdefault(key if key in plain_keys else key + suffix, (key, case))
+    minimal = minimise_histories(firsts)
+    _t('histories of %d finding classes minimised' % len(minimal))
     for key, suffix, what, case in pending:
         full_key = key if key in plain_keys else key + suffix
-        if full_key not in minimal:
-            minimal[full_key] = minimise_history(key, case) if len(minimal) < 12 else ('/after-grammar-listings', case)
-            case = minimal[full_key][1]
-        if minimal[full_key][0] and case.get('after'):
+        after_suffix, case = minimal.get(full_key, ('', case))
+        if after_suffix:
             what += ' -- after %s was parsed in the same process' % ', '.join(case['after'])
-        ctx.violation(full_key + minimal[full_key][0], what, case, module='conf_t4scan')
+        ctx.violation(full_key + after_suffix, what, case, module='conf_t4scan')
     n_prefixes = sum(pf['n'] for pf in per_file.values())
     ctx.count(evaluations=sum(pf['nparse'] for pf in per_file.values()), traces=n_prefixes)
     if n_amb:
